@@ -1,7 +1,7 @@
 SPECIFICATION Spec
 CONSTANTS
-  ItemKinds = {"decl", "sp_between", "sp_inside", "sp_double", "cmt2", "cmt3", "lcmt", "lcmt_sp", "blank", "blank2", "sp_first", "pragma", "nulldir", "macro3", "macro_nl", "dotdot_sp", "line1", "line7", "lineBig", "line010", "line7f", "marker7", "markerBig", "marker1nf"}
-  ViolKinds = {"v_undecl", "v_bogus", "v_define"}
+  ItemKinds = {"decl", "sp_between", "sp_inside", "sp_double", "cmt2", "cmt3", "lcmt", "lcmt_sp", "blank", "blank2", "sp_first", "pragma", "nulldir", "macro3", "macro_nl", "dotdot_sp", "line1", "line7", "lineBig", "line010", "line7f", "line7fp", "line7fx", "line7e", "line7sp", "marker7", "markerBig", "marker1nf"}
+  ViolKinds = {"v_undecl", "v_bogus", "v_define", "v_str"}
   MaxItems = 2
   MinItems = 0
   Devs = {}
